@@ -151,10 +151,13 @@ type ljob struct {
 	first int
 }
 
-// every tail for clauses of up to 2 terms (and 4 [NOT] atom terms in thorough); '' and ORDER BY for the larger families
+// every tail for clauses of up to 2 terms (and 4 [NOT] atom terms in thorough); ” (thorough: and ORDER BY) for the larger families
 func (g *likeGrid) tails(small bool) []int {
 	if small {
 		return []int{0, 1, 2, 3}
+	}
+	if g.quick {
+		return []int{0}
 	}
 	return []int{0, 1}
 }
@@ -406,14 +409,19 @@ func (g *likeGrid) classify(ws []*worker) {
 		q := likeSQL(f.e, f.tail)
 		o := ws[0].evaluate(q, g.nrows, false)
 		var rows []string
+		standalone := ""
 		for i := range o.Orig {
+			if o.differs(i) && standalone == "" {
+				standalone = fmt.Sprintf("SELECT i FROM (SELECT 0 AS i, CAST(%s AS VARCHAR) AS a, CAST(%s AS VARCHAR) AS b, CAST(%s AS VARCHAR) AS c) r WHERE %s%s",
+					lVals[i/16], lVals[(i/4)%4], lVals[i%4], f.e.String(), lTails[f.tail])
+			}
 			if o.differs(i) && len(rows) < 4 {
 				rows = append(rows, fmt.Sprintf("(a,b,c)=(%s,%s,%s): duckdb %s, arc %s", lVals[i/16], lVals[(i/4)%4], lVals[i%4], keep(o.Orig[i]), keep(o.Rew[i])))
 			}
 		}
 		g.viol = append(g.viol, violation{Sig: s,
 			Desc:      "WHERE " + f.e.String() + lTails[f.tail] + " is rewritten to " + strings.TrimPrefix(o.Rewrite, "SELECT i FROM r ") + " which selects different rows, e.g. " + strings.Join(rows, "; "),
-			Replay:    map[string]any{"original_sql": q, "rewritten_sql": o.Rewrite, "table": "r(i,a,b,c) = every combination of NULL,'','x','y'", "differing_rows": rows},
+			Replay:    map[string]any{"standalone_original_sql": standalone, "original_sql": q, "rewritten_sql": o.Rewrite, "table": "r(i,a,b,c) = every combination of NULL,'','x','y'", "differing_rows": rows},
 			Instances: count[s]})
 	}
 }
@@ -435,7 +443,7 @@ func (g *likeGrid) coverage() map[string]any {
 	m["rows"] = g.nrows
 	m["atoms"] = lAtoms
 	m["tails"] = lTails
-	m["grammar"] = "term := [NOT] atom | [NOT] (atom op atom); every clause of 1..3 such terms (quick: at most one parenthesised term among 3), every clause of 4 [NOT] atom terms, every depth-2 term [NOT] (X op Y) with X,Y in atom|(atom op atom) alone or joined before/after one atom (thorough: one depth-1 term, or two atoms in every position); op in AND, OR; every tail for clauses of 1-2 terms (thorough: also 4 terms), '' and ORDER BY for the rest"
+	m["grammar"] = "term := [NOT] atom | [NOT] (atom op atom); every clause of 1..3 such terms (quick: at most one parenthesised term among 3), every clause of 4 [NOT] atom terms, every depth-2 term [NOT] (X op Y) with X,Y in atom|(atom op atom) alone or joined before/after one atom (thorough: one depth-1 term, or two atoms in every position); op in AND, OR; every tail for clauses of 1-2 terms (thorough: also 4 terms), for the rest no tail (thorough: and ORDER BY)"
 	m["failing_clauses_before_minimisation"] = g.rawFail
 	m["classes"] = len(g.viol)
 	return m
